@@ -1,0 +1,22 @@
+//go:build !verif
+
+package iobroker
+
+/*
+ * verif_off.go
+ * Verification hooks, disabled (the default)
+ */
+
+import "context"
+
+// verifTok is handed out by verifStart.  Without the verif build tag it
+// does nothing.
+type verifTok struct{}
+
+// verifStart is a no-op without the verif build tag.
+func (b *Broker) verifStart(context.Context, sDirection, string) verifTok {
+	return verifTok{}
+}
+
+// at is a no-op without the verif build tag.
+func (verifTok) at(string) {}
